@@ -514,6 +514,26 @@ def run(chk):
                 continue
             if r is not None:
                 results.append(r)
+    # functions analysed while a callee had no return shape yet (its own analysis had failed and was repeated in context
+    # later) are analysed again, callees first, until nothing changes
+    for rnd in range(5):
+        stale = [r["fname"] for r in results if any("summary result type" in m for m in r["engine_errors"])]
+        if not stale:
+            break
+        changed = False
+        for n in order:
+            if n in stale and n not in an.inline:
+                try:
+                    r = an.analyse(n, None)
+                except Exception as e:
+                    continue
+                if r is not None:
+                    old_r = next(x for x in results if x["fname"] == n)
+                    if r["engine_errors"] != old_r["engine_errors"]:
+                        changed = True
+                    results = [x for x in results if x["fname"] != n] + [r]
+        if not changed:
+            break
     if ctx_inlined:
         chk.extra["context_sensitive_reanalysis"] = {k_.replace("filippo.io/edwards25519", "ed"): [x.replace("filippo.io/edwards25519", "ed") for x in v] for k_, v in ctx_inlined.items()}
     nsites = 0
